@@ -211,7 +211,7 @@ func c19GoType(p c19Prop) string {
 }
 
 func runC19(c *wk.Ctx) {
-	c.Meta("rule", "generated schema YAML (0..6 objects x 0..6 properties, identifiers incl. Go keywords and mixed case, every type ID, refs to declared and undeclared objects) x {no ignore argument, ignore an existing object, ignore a non-existing name}; the generator binary built from the working tree is run 6 times per (input, argument form) in a private directory: exit status, stderr, output re-parsed with go/parser and compared as struct/field multisets with the expected mapping, and byte-compared across runs. non-trivial = at least 2 objects or an object with at least 2 properties (map iteration order can show); distinct by hash of (YAML, arguments)")
+	c.Meta("rule", "generated schema YAML (0..6 objects x 0..6 properties, identifiers incl. Go keywords and mixed case, every type ID, refs to declared and undeclared objects) x {no ignore argument, ignore an existing object, ignore a non-existing name}; the generator binary built from the working tree is run 6 times per (input, argument form) in a private directory - runs 0/2/4 into an empty directory, runs 1/3/5 over an existing typedef_output.go that is longer than the new output (regenerating in place): exit status, stderr, output re-parsed with go/parser and compared as struct/field multisets with the expected mapping, and byte-compared across runs. non-trivial = at least 2 objects or an object with at least 2 properties (map iteration order can show); distinct by hash of (YAML, arguments)")
 	c.Meta("assumptions", []string{"names are ASCII letter followed by letters/digits (no underscores), no two names equal ignoring case; struct/field names are compared case-insensitively because title-casing is delegated to golang.org/x/text"})
 	c.Floor("generator_runs", 200)
 	c.Floor("outputs_parsed", 20)
@@ -278,7 +278,14 @@ func runC19(c *wk.Ctx) {
 			w := map[string]any{"yaml": yamlText, "args": args}
 			ok := true
 			for run := 0; run < runs && ok; run++ {
-				_ = os.Remove(filepath.Join(dir, "typedef_output.go"))
+				if run%2 == 0 {
+					_ = os.Remove(filepath.Join(dir, "typedef_output.go"))
+				} else {
+					// regenerating in place: the directory holds an earlier, longer output
+					stale := append(append([]byte{}, first...), []byte(strings.Repeat("\n}}}} tail of an earlier, longer output {{{{\n", 8))...)
+					_ = os.WriteFile(filepath.Join(dir, "typedef_output.go"), stale, 0o644)
+					c.Count("runs_over_an_existing_longer_output")
+				}
 				cmd := exec.Command(bin, args...)
 				cmd.Dir = dir
 				cmd.Env = []string{"PATH=" + os.Getenv("PATH"), "HOME=" + dir}
@@ -318,7 +325,7 @@ func runC19(c *wk.Ctx) {
 					ok = false
 					w["run0"] = clipStr(string(first), 3000)
 					w["run_n"] = clipStr(string(out), 3000)
-					c.Violation("C19:nondeterministic-output", fmt.Sprintf("run %d on the same input and arguments produced different bytes than run 0 (%s)", run, form.name), w)
+					c.Violation("C19:nondeterministic-output", fmt.Sprintf("run %d on the same input and arguments (odd runs regenerate over an existing, longer typedef_output.go) produced different bytes than run 0 (%s)", run, form.name), w)
 				}
 			}
 		}
